@@ -16,7 +16,10 @@
 
 use std::collections::HashSet;
 use std::fmt::{self, Write};
+#[cfg(not(quandary_verif))]
 use std::fs;
+#[cfg(quandary_verif)]
+use quandary::verif::fs;
 use std::io;
 use std::net::{IpAddr, Ipv6Addr, SocketAddr, ToSocketAddrs};
 use std::path::{Path, PathBuf};
